@@ -10,6 +10,12 @@ package main
 //   proc : fzf -f '' [--read0 --print0] [--tail N] [--header-lines N], stdin through a pipe in cut patterns,
 //          index probes with --with-nth {n} -f ^K$
 //          spec  searchable (op 605);  corr  pipeline (op 604)
+//          the same through every --filter path of core.go: --no-sort (streaming), --tac, --sync and their
+//          combinations, an exact one-letter query on the order-preserving paths
+//          spec  filter_listing (op 608);  corr  filter_run (op 607)
+//   inter: (c06inter.go) interactive sessions on a pty: initial source (stdin / FZF_DEFAULT_COMMAND / start:reload),
+//          then reload / reload-sync histories; the list of GET / (index, text) after each source was read
+//          spec  session_views (op 610);  corr  run_session (op 609)
 
 import (
 	"bytes"
@@ -58,6 +64,13 @@ type c06Case struct {
 	Probes []int    `json:"probes,omitempty"`
 	Ops    []c06Op  `json:"ops,omitempty"`
 	OutDom bool     `json:"outside_domain,omitempty"` // >= 100 consecutive (0,nil) reads: correspondence only
+	// proc: which --filter path (none set = the default collecting path); inter: --tac
+	NoSort bool   `json:"nosort,omitempty"`
+	Tac    bool   `json:"tac,omitempty"`
+	Sync   bool   `json:"sync,omitempty"`
+	Query  string `json:"query,omitempty"` // proc: exact, case-sensitive, literal query (only with nosort: listing order = stream order)
+	// inter: the input sources of one session, in order
+	Loads []c06Load `json:"loads,omitempty"`
 }
 
 func (cs *c06Case) data() []byte {
@@ -83,8 +96,46 @@ func (cs *c06Case) summary() map[string]interface{} {
 	for _, s := range cs.Segs {
 		n += s.R * len(s.B)
 	}
-	return map[string]interface{}{"kind": cs.Kind, "read0": cs.Read0, "stream_bytes": n, "cut_groups": len(cs.Cuts),
+	for _, l := range cs.Loads {
+		for _, s := range l.Segs {
+			n += s.R * len(s.B)
+		}
+	}
+	m := map[string]interface{}{"kind": cs.Kind, "read0": cs.Read0, "stream_bytes": n, "cut_groups": len(cs.Cuts),
 		"hl": cs.HL, "tail": cs.Tail, "ops": len(cs.Ops), "probes": cs.Probes}
+	if cs.NoSort || cs.Tac || cs.Sync || cs.Query != "" {
+		m["path"] = cs.pathName()
+	}
+	if len(cs.Loads) > 0 {
+		acts := []string{}
+		for _, l := range cs.Loads {
+			acts = append(acts, l.Act)
+		}
+		m["loads"] = acts
+	}
+	return m
+}
+
+// streaming: core.go's streamingFilter (a second Reader; items are matched and printed as they are read)
+func (cs *c06Case) streaming() bool { return cs.NoSort && !cs.Tac && !cs.Sync && cs.Tail == 0 } // core.go streamingFilter (d7ddb0d)
+func (cs *c06Case) pathName() string {
+	n := "default"
+	if cs.streaming() {
+		n = "streaming"
+	}
+	if cs.NoSort {
+		n += "+nosort"
+	}
+	if cs.Tac {
+		n += "+tac"
+	}
+	if cs.Sync {
+		n += "+sync"
+	}
+	if cs.Query != "" && cs.NoSort {
+		n += "+query"
+	}
+	return n
 }
 
 // ---------- feed ----------
@@ -495,18 +546,44 @@ func c06Proc(c *Ctx, cs *c06Case) {
 	if cs.HL > 0 {
 		base = append(base, "--header-lines", strconv.Itoa(cs.HL))
 	}
+	if cs.NoSort {
+		base = append(base, "--no-sort")
+	}
+	if cs.Tac {
+		base = append(base, "--tac")
+	}
+	if cs.Sync {
+		base = append(base, "--sync")
+	}
+	plain := !cs.NoSort && !cs.Tac && !cs.Sync
+	query := ""
+	if cs.NoSort { // only where nothing is ranked: the listing keeps stream order
+		query = cs.Query
+	}
 	writes := cs.cutList(1 << 16)
 	// spec + model
-	specV := c.Model.Call(605, L(B(cs.Read0), I(cs.HL), I(cs.Tail), Bytes(string(data))))
+	var specV Val
+	if cs.Tac {
+		specV = c.Model.Call(608, L(B(cs.Read0), B(cs.Tac), I(cs.HL), I(cs.Tail), Bytes(string(data))))
+	} else {
+		specV = c.Model.Call(605, L(B(cs.Read0), I(cs.HL), I(cs.Tail), Bytes(string(data))))
+	}
 	wantItems := specV.L[1].L
-	wantTexts := make([]string, len(wantItems))
+	wantTexts := []string{}
 	byIndex := map[int]string{}
-	for i, it := range wantItems {
-		wantTexts[i] = it.L[1].Str()
-		byIndex[int(it.L[0].I)] = wantTexts[i]
+	for _, it := range wantItems {
+		t := it.L[1].Str()
+		byIndex[int(it.L[0].I)] = t
+		if query == "" || bytes.Contains([]byte(t), []byte(query)) { // a searchable item is found by what it contains
+			wantTexts = append(wantTexts, t)
+		}
 	}
 	rep.Eval(c06Key(cs), len(wantItems) >= 2)
-	out, errs, code := c06RunFzf(c, append(append([]string{}, base...), "-f", ""), data, writes)
+	fargs := []string{"-f", ""}
+	if query != "" {
+		fargs = []string{"-e", "+i", "--literal", "-f", query}
+	}
+	out, errs, code := c06RunFzf(c, append(append([]string{}, base...), fargs...), data, writes)
 	rep.ImplTraces++
 	rep.SpecChecks++
 	got, ok := c06SplitOut(out, term)
@@ -515,8 +592,12 @@ func c06Proc(c *Ctx, cs *c06Case) {
 		wantCode = 1
 	}
 	if !ok || !Strs(got).Equal(Strs(wantTexts)) || code != wantCode {
-		rep.Disagreement(Disagreement{Kind: "spec", Name: "searchable(filter output)", Input: cs,
-			Impl:   fmt.Sprintf("exit %d stderr %q %s", code, c06Clip(errs), c06Brief(got)),
+		name := "searchable(filter output)"
+		if !plain || query != "" {
+			name = "filter_listing(" + cs.pathName() + ")"
+		}
+		rep.Disagreement(Disagreement{Kind: "spec", Name: name, Input: cs,
+			Impl:   fmt.Sprintf("fzf %q: exit %d stderr %q %s", append(append([]string{}, base...), fargs...), code, c06Clip(errs), c06Brief(got)),
 			Expect: fmt.Sprintf("exit %d %s", wantCode, c06Brief(wantTexts))})
 	}
 	// item numbering: the item whose index is K
@@ -540,8 +621,16 @@ func c06Proc(c *Ctx, cs *c06Case) {
 	// correspondence: model pipeline at the real sizes (the cuts the kernel delivered are unknown; the write pattern is used)
 	nrec := len(splitBytes(string(data), term))
 	cost := float64(len(writes)+len(data)/c06Buf+2)*float64(c06Slab)/2 + float64(nrec)*float64(c06Slab)/4 + float64(len(data))*4
-	if cost <= c06ModelBudget || c.Replay != "" {
-		mv := c.Model.Call(604, L(I(c06Buf), I(c06Slab), I(fzf.VerifChunkSize()), B(cs.Read0), I(cs.HL), I(cs.Tail), Bytes(string(data)), Ints(writes)))
+	if (cost <= c06ModelBudget || c.Replay != "") && query == "" {
+		var mv Val
+		name := "corr:C06.pipeline"
+		if plain {
+			mv = c.Model.Call(604, L(I(c06Buf), I(c06Slab), I(fzf.VerifChunkSize()), B(cs.Read0), I(cs.HL), I(cs.Tail), Bytes(string(data)), Ints(writes)))
+		} else {
+			name = "corr:C06.filter_run"
+			mv = c.Model.Call(607, L(I(c06Buf), I(c06Slab), I(fzf.VerifChunkSize()), B(cs.Read0), B(!cs.NoSort), B(cs.Tac), B(cs.Sync),
+				I(cs.HL), I(cs.Tail), Bytes(string(data)), Ints(writes)))
+		}
 		implItems := L()
 		if ok && len(mv.L) == 2 && len(mv.L[1].L) == len(got) {
 			// texts from the process, indexes as the model numbers them (indexes are probed separately)
@@ -554,13 +643,14 @@ func c06Proc(c *Ctx, cs *c06Case) {
 			implItems = Strs(got)
 		}
 		if len(mv.L) != 2 || !implItems.Equal(mv.L[1]) {
-			rep.Disagreement(Disagreement{Kind: "corr", Name: "corr:C06.pipeline", Input: cs, Impl: c06Brief(got), Expect: c06Clip(mv.String())})
+			rep.Disagreement(Disagreement{Kind: "corr", Name: name, Input: cs, Impl: c06Brief(got), Expect: c06Clip(mv.String())})
 		}
 		rep.Count("proc:model_compared")
 	}
 	rep.Sample(cs.summary())
 	rep.Count("proc")
 	rep.Count(fmt.Sprintf("proc:read0=%v,tail=%v,hl=%v", cs.Read0, cs.Tail > 0, cs.HL > 0))
+	rep.Count("proc:path=" + cs.pathName())
 	rep.Count("proc:size<=" + c06Bucket(len(data)))
 }
 
@@ -817,6 +907,25 @@ func c06GenProc(r *RNG) *c06Case {
 	if nrec <= 400 && r.Chance(1, 2) {
 		cs.Probes = []int{r.Intn(nrec + 1), max(nrec-cs.HL-1-r.Intn(3), 0)}
 	}
+	// which --filter path of core.go: half of the cases the default one, the rest spread over the others
+	switch r.Intn(12) {
+	case 0, 1, 2:
+		cs.NoSort = true // streaming (records are matched and printed while the stream is read) unless --tail is given
+		if r.Chance(2, 3) {
+			cs.Tail = 0
+		}
+	case 3:
+		cs.Tac = true
+	case 4:
+		cs.Sync = true
+	case 5:
+		cs.NoSort, cs.Tac = true, true
+	case 6:
+		cs.NoSort, cs.Sync = true, true
+	}
+	if cs.NoSort && r.Chance(1, 3) {
+		cs.Query = Pick(r, []string{"a", "b", "c", "d", "é"})
+	}
 	return cs
 }
 
@@ -828,11 +937,13 @@ func c06Run(c *Ctx, cs *c06Case) {
 		c06Ops(c, cs)
 	case "proc":
 		c06Proc(c, cs)
+	case "inter":
+		c06Inter(c, cs)
 	}
 }
 
 func runC06(c *Ctx) {
-	c.Rep.Rule = "feed: byte streams 0..300 KiB (sizes and delimiters on/around the 64 KiB read buffer and 128 KiB slab boundaries) x cut lists (fill, fixed 1..131073, random, adversarial around boundaries, (0,nil) runs <= 99); ops: Push/Snapshot(tail)/Clear histories around chunk size 100; proc: fzf -f '' with --read0/--tail/--header-lines, stdin through a pipe in cut patterns, {n} probes. non-trivial = feed: >=2 records and >=2 reads; ops: a tail trim happened or >=2 chunks; proc: >=2 searchable items; distinct by JSON of the case"
+	c.Rep.Rule = "feed: byte streams 0..300 KiB (sizes and delimiters on/around the 64 KiB read buffer and 128 KiB slab boundaries) x cut lists (fill, fixed 1..131073, random, adversarial around boundaries, (0,nil) runs <= 99); ops: Push/Snapshot(tail)/Clear histories around chunk size 100; proc: fzf -f '' with --read0/--tail/--header-lines through every filter path (default, --no-sort streaming, --tac, --sync, combinations; exact one-letter query on the unsorted paths), stdin through a pipe in cut patterns, {n} probes; inter: pty sessions, initial source stdin / FZF_DEFAULT_COMMAND / start:reload then reload / reload-sync histories (streams delivered whole or in two parts), list (index, text) of GET / after each source. non-trivial = feed: >=2 records and >=2 reads; ops: a tail trim happened or >=2 chunks; proc: >=2 searchable items; inter: >=2 sources and >=2 items in some list; distinct by JSON of the case"
 	// the extracted model recurses over 300 KiB lists: give the driver processes (children) a deep stack
 	var rl syscall.Rlimit
 	if syscall.Getrlimit(syscall.RLIMIT_STACK, &rl) == nil {
@@ -906,7 +1017,8 @@ func runC06(c *Ctx) {
 	})
 	phase("feed-big", c.N(90, 1500), func(r *RNG) { c06Feed(c, c06GenBig(r, "feed", false)) })
 	phase("ops", c.N(600, 20000), func(r *RNG) { c06Ops(c, c06GenOps(r)) })
-	phase("proc", c.N(130, 3000), func(r *RNG) { c06Proc(c, c06GenProc(r)) })
+	phase("proc", c.N(320, 7000), func(r *RNG) { c06Proc(c, c06GenProc(r)) })
+	phase("inter", c.N(96, 1500), func(r *RNG) { c06Inter(c, c06GenInter(r)) })
 }
 
 func init() { runners["C06"] = runC06 }
